@@ -248,7 +248,7 @@ def make_functional(fd, space, data=None):
     form = fd.get('form', 'left')
 
     def scaled(base):
-        if form == 'plain' or lam == 1.0 and form != 'right':
+        if form == 'plain':
             if lam != 1.0:
                 raise HarnessError('form plain needs lam == 1')
             return base
@@ -568,25 +568,30 @@ class NonsmoothProblem(object):
         return wnorm(toflat(x, self.X) - self.xstar, self.dX)
 
 
-def _zero_rows(term_fd, M, rng, nmax, space, full=False):
-    """Rows of M that shall vanish at x* so that the kink of a norm-like
-    functional is active there."""
-    m = M.shape[0]
-    kind = term_fd['kind']
-    if kind not in ('l1', 'l2', 'groupl1', 'huber') or m == 0:
-        return np.zeros(0, dtype=int)
-    if full or kind == 'l2':
-        want = full or rng.randint(0, 3) == 0
-        return np.arange(m) if want else np.zeros(0, dtype=int)
+def _partial_rows(kind, m, rng, budget, space):
+    """Random subset of the rows of an operator that shall vanish at x* so
+    that the kink of a norm-like functional is active there."""
+    none = np.zeros(0, dtype=int)
+    if m == 0 or budget <= 0:
+        return none
+    if kind == 'l1':
+        cnt = min(int(rng.randint(0, m + 1)), budget)
+        return np.sort(rng.choice(m, size=cnt, replace=False))
+    if kind == 'l2':
+        return np.arange(m) if (rng.randint(0, 3) == 0 and m <= budget) \
+            else none
     if kind == 'groupl1':
         k, npts = group_layout(space)
-        cnt = min(rng.randint(0, npts + 1), max(nmax // k, 0))
+        cnt = min(int(rng.randint(0, npts + 1)), budget // k)
+        if cnt <= 0:
+            return none
         pts = rng.choice(npts, size=cnt, replace=False)
         return np.sort(np.concatenate(
-            [np.arange(k) * npts + p for p in pts]).astype(int)) \
-            if cnt else np.zeros(0, dtype=int)
-    cnt = min(rng.randint(0, m + 1), max(nmax, 0))
-    return np.sort(rng.choice(m, size=cnt, replace=False))
+            [np.arange(k) * npts + p for p in pts]).astype(int))
+    return none
+
+
+KINKED = ('l1', 'l2', 'groupl1', 'huber')
 
 
 def build_nonsmooth(pd):
@@ -620,25 +625,24 @@ def build_nonsmooth(pd):
     rows = []
     budget = n - 1
     phi_fd = pd['phi']
-    if not pos or phi_fd['kind'] in ('l1', 'nonneg'):
-        jz = _zero_rows(phi_fd if phi_fd['kind'] != 'nonneg' else
-                        {'kind': 'l1'}, np.eye(n), rng, budget, X,
-                        full=False)
-        if phi_fd['kind'] in ('l1', 'groupl1', 'nonneg', 'l2', 'huber'):
-            if len(jz):
-                rows.append(np.eye(n)[jz])
-                budget -= len(jz)
-    for t, lin in zip(pd['terms'], lins):
-        if pos and not nullspace:
-            continue
-        full = nullspace or (zero_cert and t['g']['kind'] in
-                             ('l1', 'l2', 'groupl1', 'huber'))
-        jz = _zero_rows(t['g'], lin.M, rng, budget, lin.op.range, full=full)
-        if full and t['g']['kind'] not in ('l1', 'l2', 'groupl1', 'huber'):
-            jz = np.arange(lin.M.shape[0]) if nullspace else jz
+    pk = phi_fd['kind']
+    if zero_cert and pk in KINKED:
+        raise HarnessError('zero certificate: phi must not be norm-like')
+    if pk in ('l1', 'nonneg', 'groupl1', 'l2') and not zero_cert:
+        jz = _partial_rows('l1' if pk == 'nonneg' else pk, n, rng, budget, X)
         if len(jz):
-            rows.append(lin.M[jz])
-            if not full:
+            rows.append(np.eye(n)[jz])
+            budget -= len(jz)
+    for t, lin in zip(pd['terms'], lins):
+        gk = t['g']['kind']
+        if nullspace or (zero_cert and gk in KINKED):
+            if pos:
+                raise HarnessError('positive x* cannot meet row constraints')
+            rows.append(lin.M)
+        elif not pos and not zero_cert:
+            jz = _partial_rows(gk, lin.M.shape[0], rng, budget, lin.op.range)
+            if len(jz):
+                rows.append(lin.M[jz])
                 budget -= len(jz)
     if pos and rows:
         # coordinates only: keep positivity of the rest
